@@ -231,6 +231,10 @@ def run_check(pid, units, tier, seed, props_files=None, default_imports='', leve
             if k['kind'] == 'finding' and (k['unit'] in (None, unit)):
                 if k.get('label') and (mm is None or mm.get('label') != k['label']):
                     continue      # a finding names the failing cases by label: anything else is still reported
+                if k.get('impl_prefix') and (mm is None or list(mm.get('impl', [])[:len(k['impl_prefix'])]) != k['impl_prefix']):
+                    continue      # ... or by what the implementation does on them (e.g. a not-implemented outcome)
+                if k.get('spec_prefix') and (mm is None or list((mm.get('spec') or [])[:len(k['spec_prefix'])]) != k['spec_prefix']):
+                    continue      # ... together with what the specification expects there (e.g. a Data Abort)
                 return k
         return None
 
